@@ -552,7 +552,7 @@ func main() {
 
 	// own wall-clock limit, below the tier budgets (quick 60 s, thorough 10 min): on an overloaded machine the
 	// run stops exploring and is reported exhaustive:false with the sweeps it completed - never as a failure
-	limit := 40 * time.Second
+	limit := 180 * time.Second // quick: generous, so that a loaded machine does not cut the sweep short (the run budget is 4 min)
 	if r.Thorough() {
 		limit = 8 * time.Minute
 	}
